@@ -76,6 +76,81 @@ class R:
             self.fail(key, msg)
         return bool(cond)
 
+    def twice(self, key, fn):
+        """fn() for a call of the code under test.  The first call made under each key in a case is repeated after the
+        arrays it returned were overwritten in place (the caller owns its results: ``g *= -1``, ``mask[...] = 0``): the
+        second result must equal the first, i.e. no result may alias an internal cache or depend on what the previous
+        call left behind.  Returns a private copy of the first result."""
+        import copy
+        import numpy as np
+        from vlib import arrays as A
+        seen = self.__dict__.setdefault("_twice_seen", set())
+        first = fn()
+        if key in seen or not _is_plain_result(first):
+            return first
+        seen.add(key)
+        # a result that is (a view of) one of the call's own arguments - Identity, an equal-shape resize, a flip - belongs
+        # to the caller already: overwriting it would be the harness corrupting its own input
+        if _aliases_closure(first, fn):
+            return first
+        keep = copy.deepcopy(first)
+        if A.scribble(first):
+            again = fn()
+            if not _same_result(again, keep):
+                self.fail(str(key) + ":depends-on-history",
+                          "a second call with the same arguments, made after the first result had been overwritten in place "
+                          "by its owner, returned a different result")
+        return keep
+
+
+def _arrays_in(x, depth=2):
+    import numpy as np
+    if isinstance(x, np.ndarray):
+        return [x]
+    out = []
+    if depth > 0:
+        if isinstance(x, (tuple, list)):
+            for e in x:
+                out += _arrays_in(e, depth - 1)
+        elif isinstance(x, dict):
+            for e in x.values():
+                out += _arrays_in(e, depth - 1)
+    return out
+
+
+def _aliases_closure(result, fn):
+    import numpy as np
+    res = _arrays_in(result)
+    args = []
+    for cell in (getattr(fn, "__closure__", None) or ()):
+        try:
+            args += _arrays_in(cell.cell_contents)
+        except ValueError:
+            pass
+    for d in (getattr(fn, "__defaults__", None) or ()):
+        args += _arrays_in(d)
+    return any(np.may_share_memory(a, b) for a in res for b in args)
+
+
+def _is_plain_result(x):
+    import numpy as np
+    if isinstance(x, np.ndarray):
+        return True
+    if isinstance(x, (tuple, list)):
+        return len(x) > 0 and all(_is_plain_result(e) or isinstance(e, (int, float, complex, np.number)) for e in x)
+    return False
+
+
+def _same_result(a, b):
+    import numpy as np
+    if isinstance(a, (tuple, list)) or isinstance(b, (tuple, list)):
+        return (isinstance(a, (tuple, list)) and isinstance(b, (tuple, list)) and len(a) == len(b)
+                and all(_same_result(x, y) for x, y in zip(a, b)))
+    if isinstance(a, np.ndarray) or isinstance(b, np.ndarray):
+        a, b = np.asarray(a), np.asarray(b)
+        return a.shape == b.shape and a.dtype == b.dtype and bool(np.array_equal(a, b, equal_nan=True))
+    return a == b
+
 
 class Part:
     """One generated family of a property.
